@@ -416,6 +416,8 @@ class Out(object):
 TEXT_FORMS = ("str", "bytes", "reuse_str")                      # the "empty changelog file" rule applies
 LINE_FORMS = ("stringio", "bytesio", "file", "list_nl", "list", "list_bytes", "iter", "tuple", "reuse_list", "reused_obj")
 FORMS = TEXT_FORMS + LINE_FORMS
+# for random draws: the in-memory forms mostly, a real temporary file now and then
+FORMS_W = [f for f in FORMS if f != "file"] * 3 + ["file"]
 OTHER_TEXT = "other (0.1) unstable; urgency=low\n\n  * other\n\n -- O T <o@t>  Mon, 01 Jan 2001 10:00:00 +0000\n"
 
 
@@ -597,7 +599,7 @@ def c15_laws(text, aea, rng=None, form="str"):
         return None, info
     info["str"] = s
     msg = fixpoint(len_.cl, s, aea)
-    if msg is None and rng is not None and rng.random() < 0.15:
+    if msg is None and rng is not None and rng.random() < 0.08:
         msg = repeat_laws(text, aea, rng, form)
     return msg, info
 
@@ -984,8 +986,8 @@ def run_hist(rec, c04=True):
         if err:
             return "call %d %s raised %s" % (k + 1, op, err[4:])
         last = t
-    if not rec["ops"] or rec["ops"][-1][0] != "Fmt":
-        last, err = do_format(cl, 0, 0)
+    if not rec["ops"] or rec["ops"][-1][0] != "Fmt":        # (a call that leaves the document as it is came after the Fmt)
+        last, err = do_format(cl, rec["what"], 0)
         if last is None and err != "unformattable":
             return "str() raised %s" % err[4:]
     if last is None:
